@@ -192,6 +192,7 @@ pub fn wrappers() -> Vec<(Vec<Misc>, Vec<Misc>)> {
         vec![Misc::PI("xml-stylesheet type=\"text/xsl\" href=\"s.xsl\"".into()), Misc::Text("\n".into())],
         vec![Misc::DocType("r".into())],
         vec![Misc::Text("\n  ".into())],
+        vec![Misc::Decl("xml version=\"1.0\" encoding=\"ISO-8859-1\" standalone=\"yes\"".into())],
     ];
     let epilogs: Vec<Vec<Misc>> = vec![vec![], vec![Misc::Comment("tail".into())], vec![Misc::Text("\n".into()), Misc::PI("end x".into())]];
     let mut out = Vec::new();
